@@ -5,6 +5,7 @@ import VhostModel.Drv.Send
 import VhostModel.Drv.Locks
 import VhostModel.Drv.Log
 import VhostModel.Drv.Route
+import VhostModel.Drv.Kern
 /-! Model driver: one scenario per input line, one prediction per output line. -/
 
 def dispatch (line : String) : String :=
@@ -17,6 +18,7 @@ def dispatch (line : String) : String :=
   | "locks" :: _ => Drv.Locks.run toks
   | "route" :: _ => Drv.Route.run toks
   | "log" :: _ => Drv.Log.run toks
+  | "kern" :: _ => Drv.Kern.run toks
   | _ => "bad-family"
 
 partial def loop (h : IO.FS.Stream) (out : IO.FS.Stream) : IO Unit := do
